@@ -44,6 +44,27 @@ def r1_responses(report, repo):
   report.check(fh == ['DATA', 'OKAY'], rule, 'FastbootProtocol', 'FINAL_HEADERS',
                cls, 'FINAL_HEADERS = {OKAY, DATA}',
                'FINAL_HEADERS is %s, expected {OKAY, DATA}' % fh)
+  # the class-level table is shared by every command of every connection:
+  # nothing may change it in place
+  m = repo.module(FP)
+  for n in ast.walk(m.tree):
+    bad = None
+    if isinstance(n, ast.Call) and isinstance(n.func, ast.Attribute) and \
+        n.func.attr in core.MUTATORS and (dotted(n.func.value) or '').endswith(
+            'FINAL_HEADERS'):
+      bad = n
+    elif isinstance(n, (ast.Assign, ast.AugAssign, ast.Delete)) and any(
+        isinstance(t, (ast.Subscript, ast.Attribute)) and
+        (dotted(t.value if isinstance(t, ast.Subscript) else t) or '').endswith(
+            'FINAL_HEADERS') for t in core.assigned_targets(n)) and \
+        core.owner_qualname(n) != 'FastbootProtocol':
+      bad = n
+    if bad is not None:
+      report.violation(rule, core.owner_qualname(bad),
+                       'FINAL_HEADERS-mutated:' + norm(bad)[:50], bad,
+                       'the shared class-level FINAL_HEADERS table is changed '
+                       'in place (%s): the final-packet set of every later '
+                       'command differs' % norm(bad)[:60])
 
   def reads(steps):
     return sum(1 for n, _ in steps for s in n.subnodes()
